@@ -657,3 +657,26 @@ class C30(Spec):
 
     def evidence_extra(self, agg, tier):
         return {'enumerated_part': f'{len(self._enum(tier))} enumerated cases (covered iff evaluations >= that number)'}
+
+
+from .families import seclistfam  # noqa: E402
+
+
+@_register
+class C31(Spec):
+    check_id = 'C31'
+    family = 'seclist'
+    title = 'secure lists behave like Python lists under any operation history'
+    technique = 'deterministic simulation + model-based checking: seeded operation histories, Python list as reference model, contents and result compared after every operation'
+    quick = {'runs': 2000, 'wall': 80}
+    thorough = {'runs': 300000, 'wall': 900}
+    expected_probes = ('get_secret', 'set_secret', 'del_secret', 'insert_secret', 'pop_secret', 'remove', 'sort', 'cmp')
+
+    def make_case(self, seed, tier):
+        rng = random.Random(f'C31/{seed}')
+        cfg = sample_cfg(rng, tier, m_max=4 if tier == 'quick' else 5)
+        prog = seclistfam.gen(rng, cfg, tier)
+        return {'family': 'seclist', 'cfg': cfg.to_json(), 'prog': prog, 'seed': seed}
+
+    def sample(self, case, res):
+        return {'seed': case['seed'], 'cfg': case['cfg'], 'history': case['prog']['ops'], 'init': case['prog']['init']}
